@@ -13,7 +13,7 @@ import (
 // Base is the start of every generated dataset (aligned to every resolution used).
 var Base = time.Date(2021, 3, 1, 0, 0, 0, 0, time.UTC)
 
-var Resolutions = []time.Duration{time.Second, 2 * time.Second, 5 * time.Second, time.Minute}
+var Resolutions = []time.Duration{time.Second, 2 * time.Second, 5 * time.Second, time.Minute, 100 * time.Millisecond, 200 * time.Millisecond}
 
 var StrVals = []string{"a", "b", "c", "dd"}
 
